@@ -24,7 +24,12 @@ EXPECT = {  # kind -> method -> status
     "echo": {"POST": 200}, "throw": {"GET": 500, "HEAD": 500},
     "s204": {"GET": 204, "HEAD": 204}, "s304": {"GET": 304, "HEAD": 304},
     "options": {"OPTIONS": 204}, "optstar": {"OPTIONS": 200},
+    # the handler leaves a body in the response object but ends with a status that cannot carry one
+    "sb204": {"GET": 204, "HEAD": 204}, "sb304": {"GET": 304, "HEAD": 304}, "sbp204": {"POST": 204},
+    "naive204": {"GET": 204, "HEAD": 204},
+    "defsb204": {"GET": 204, "HEAD": 204}, "defsb304": {"GET": 304, "HEAD": 304},
 }
+STALE_BODY_KINDS = ("sb204", "sb304", "sbp204", "naive204", "defsb204", "defsb304")
 
 
 def mk_body(tok, n):
@@ -74,7 +79,7 @@ class ReqX:
                 raw = bytes.fromhex(q["hex"])
                 rb = raw[raw.find(b"\r\n\r\n") + 4:]
                 self.body = ("tok=%s;len=%d;fnv=%016x;" % (self.token, len(rb), fnv64(rb))).encode()
-            elif k in ("s204", "s304"):
+            elif k in ("s204", "s304") or k in STALE_BODY_KINDS:
                 self.body = b""
         self.trigger = (k == "malformed") or self.close
 
@@ -210,12 +215,17 @@ def analyze_conn(rec):
             if ht is not None and bt != ht:
                 viol("C16:interleave:header-body-token-mismatch", "header and body of one response carry different tokens",
                      dict(request=qi, header_token=ht.decode("latin-1"), body_token=bt.decode("latin-1")[:80]))
+        if q.kind in STALE_BODY_KINDS or q.kind in ("s204", "s304") or q.head:
+            follow = any(r2.start >= r.end for r2 in fr.responses if r2 is not r)
+            ob("bodyless_checked:%s-%s-%s" % (q.method, st, "handler-body" if q.kind in STALE_BODY_KINDS or q.kind in BODY_KINDS or q.kind in ("throw", "nope", "m405") else "no-body"))
+            if follow:
+                ob("bodyless_responses_followed_by_another_response")
         if q.head:
             ob("head_responses")
             if r.declared_length:
                 ob("head_responses_with_content_length")
         elif q.body is not None and st == q.status:
-            if r.declared_length is not None and r.declared_length != len(q.body):
+            if r.framing == "length" and r.declared_length != len(q.body):
                 viol("C16:content-length:not-equal-body", "Content-Length differs from the body the handler set",
                      dict(request=qi, declared=r.declared_length, body_set=len(q.body), response=r.summary()))
             elif r.body != q.body:
@@ -297,7 +307,17 @@ def analyze_conn(rec):
         ob("connections_closed_by_server")
         if rec["eof"] == "rst":
             ob("connections_ended_by_rst")
-        if tail is not None and tail_bytes > 0:
+        # the stream was cut inside stray bytes (not a response at all) with responses still owed:
+        # same event as a cut inside a response, the bytes in front of the cut are just unframable
+        cut_in_garbage = bool(fr.garbage) and fr.garbage[-1].end == len(data) and tail is None and bool(missing) and trig is not None
+        if cut_in_garbage:
+            ob("streams_cut_inside_stray_bytes")
+            viol("C16:close:response-truncated-before-eof",
+                 "the server closed the connection while bytes were still unsent: the stream ends inside stray bytes (%d) with requests %s unanswered"
+                 % (len(fr.garbage[-1].data), [q.i for q in missing]),
+                 dict(received_total=len(data), trigger=trig.i, missing=[q.i for q in missing]))
+            outcome = "truncated"
+        elif tail is not None and tail_bytes > 0:
             outcome = "truncated"
             tq = None
             t = tail.get("x-token") if tail.headers else None
@@ -539,12 +559,12 @@ def run(ctx):
                 fh.write(json.dumps(v, default=str) + "\n")
 
     ctx.rule = ("connection = seeded (sequential | pipelined depth 2-16, 1-16 requests over routes w/echo/put/patch/del/create/big/"
-                "throw(std|int)/204/304/404/405/OPTIONS/OPTIONS*/HEAD variants, optional malformed request at one position "
+                "throw(std|int)/204/304/404/405/OPTIONS/OPTIONS*/HEAD variants, 204/304 with a handler-set or inherited body via GET/HEAD/POST and the default handler, optional malformed request at one position "
                 "(15 kinds), optional Connection: close (5 spellings) on the last request, normal or slow reader, server send() "
                 "capped or not, default handler or built-in 404); 1-32 connections run concurrently per scenario. distinct = hash of "
                 "(mode, depth, #requests, set of kind-method, malformed kind, close?, slow?, capped?, default handler?, outcome class)")
     ctx.assumptions = [
-        "handlers for 204/304 clear the inherited default body and its Content-Length/Content-Type themselves, as the project's own tests do",
+        "a 204/304 response and every response to HEAD must put no body bytes on the wire whatever the handler left in the response object (RFC 9112 6.3: such a message ends at the empty line); both handler styles are driven: body cleared by the handler, and body set/inherited and left in place",
         "a connection on which nothing arrives for the silence bound (8 s plain, 15-20 s sanitizers; doubled on the isolated re-run) while responses are outstanding will never deliver them; likewise 2.5 s (5-6 s sanitizers; doubled on the re-run) for the close after a completely received Connection: close response",
         "token-less HEAD answers (built-in 404, 405) are attributed by position and therefore only sent on sequential connections",
         "the client never half-closes and never sends after a Connection: close request, so a server-side close is always the server's decision",
@@ -554,7 +574,14 @@ def run(ctx):
                     "status_405", "malformed_answered_with_error_status", "malformed_closed_without_response",
                     "close_response_complete_then_eof", "keepalive_connections_quiescent_with_all_responses",
                     "pipelines_where_a_later_request_has_a_shorter_handler", "srv_send_calls_capped",
-                    "slow_reader_connections", "large_bodies_verified")
+                    "slow_reader_connections", "large_bodies_verified",
+                    "bodyless_responses_followed_by_another_response",
+                    "bodyless_checked:HEAD-200-handler-body", "bodyless_checked:HEAD-204-handler-body",
+                    "bodyless_checked:HEAD-304-handler-body", "bodyless_checked:HEAD-404-handler-body",
+                    "bodyless_checked:HEAD-405-handler-body", "bodyless_checked:HEAD-500-handler-body",
+                    "bodyless_checked:GET-204-handler-body", "bodyless_checked:GET-304-handler-body",
+                    "bodyless_checked:POST-204-handler-body",
+                    "bodyless_checked:GET-204-no-body", "bodyless_checked:GET-304-no-body")
 
 
 def replay(ctx, path):
